@@ -145,6 +145,13 @@ class BoxModel:
     def deref_slot(self, ex):
         return self.slot, 0
 
+    def field_slot(self, ex, idx, ty=''):
+        # (box.0: Unique<T>).0: NonNull<T> ... the pointer inside the box: stay on the box
+        return [self], 0
+
+    def as_ptr(self):
+        return Ref(self.slot, 0)
+
     def deref_model(self, ex, r):
         return Ref(self.slot, 0)
 
@@ -156,6 +163,33 @@ class BoxModel:
 
     def drop_model(self, ex):
         ex.drop_value(self.slot[0])
+
+
+WRAPPERS = ('ManuallyDrop', 'MaybeDangling', 'MaybeUninit', 'UnsafeCell', 'Cell')
+
+
+class Transparent:
+    """MaybeUninit / ManuallyDrop / MaybeDangling ...: single-field wrappers seen when std macros
+    (vec![..]) are lowered; the payload lives in `inner[0]`."""
+    model_name = 'Transparent'
+
+    def __init__(self, v=UNINIT):
+        self.inner = [v]
+
+    def field_slot(self, ex, idx, ty=''):
+        from .srcinfo import type_base
+        if type_base(ty) in WRAPPERS and not isinstance(self.inner[0], Transparent):
+            self.inner[0] = Transparent(self.inner[0])
+        return self.inner, 0
+
+    def payload(self):
+        v = self.inner[0]
+        while isinstance(v, Transparent):
+            v = v.inner[0]
+        return v
+
+    def __repr__(self):
+        return 'Wrap(%r)' % (self.inner[0],)
 
 
 class ArcModel:
@@ -263,6 +297,17 @@ def install(w):
 
     def box_new(ex, c, a):
         return BoxModel(a[0])
+    M['Box::new_uninit'] = lambda ex, c, a: BoxModel(Transparent())
+
+    def box_into_vec(ex, c, a):
+        v = a[0].slot[0]
+        if isinstance(v, Transparent):
+            v = v.payload()
+        if isinstance(v, Agg) and v.kind == 'array':
+            return VecModel(v.fields)
+        raise Unsupported('box_assume_init_into_vec_unsafe of %r' % (v,))
+    M['boxed::box_assume_init_into_vec_unsafe'] = box_into_vec
+    M['box_assume_init_into_vec_unsafe'] = box_into_vec
     M['Box::new'] = box_new
     M['boxed::box_new'] = box_new
     M['box_new'] = box_new
@@ -702,7 +747,7 @@ def install(w):
         def discriminant(self, ex):
             return 0 if self.i is not None else 1
 
-        def field_slot(self, ex, idx):
+        def field_slot(self, ex, idx, ty=''):
             return [self], 0
 
         def slot_for(self, ex, mk):
